@@ -34,6 +34,8 @@ GraceDefault    == 3600000       \* transaction.py:853 / garbage_collector.py:56
 GraceLarge      == 36000000
 InflightTimeout == 86400000      \* garbage_collector.py:31
 TickBig         == 7200000       \* 2 h: older than the default grace, younger than the large one
+T0              == 100           \* initial clock (> 0 so that a history with a few negative ticks keeps every
+                                 \* cutoff distinct from the NoCutoff sentinel -1)
 
 (* ------------------------------ state ------------------------------ *)
 \* st = [meta, metaName, nMeta, nSnap, nFile, manifests, lists, disk, markers, open, clock,
@@ -50,10 +52,10 @@ NoTx == [kind |-> "none"]
 NoGc == [ran |-> FALSE, aborted |-> FALSE, deleted |-> {}, grace |-> 0]
 
 InitState ==
-  [meta |-> InitMeta(1, 0, 1), metaName |-> 1, nMeta |-> 1, nSnap |-> 0, nFile |-> 0,
-   manifests |-> <<>>, lists |-> <<>>, disk |-> {}, markers |-> {}, open |-> <<>>, clock |-> 0,
+  [meta |-> InitMeta(1, T0, 1), metaName |-> 1, nMeta |-> 1, nSnap |-> 0, nFile |-> 0,
+   manifests |-> <<>>, lists |-> <<>>, disk |-> {}, markers |-> {}, open |-> <<>>, clock |-> T0,
    ghost |-> EmptyGhost, frozen |-> <<>>, len |-> 0,
-   lastOp |-> [op |-> "init"], res |-> "ok", prev |-> InitMeta(1, 0, 1), tx |-> NoTx, gc |-> NoGc]
+   lastOp |-> [op |-> "init"], res |-> "ok", prev |-> InitMeta(1, T0, 1), tx |-> NoTx, gc |-> NoGc]
 
 OnDisk(st, k, id) == \E x \in st.disk : x.k = k /\ x.id = id
 Key(x) == <<x.k, x.id>>
@@ -75,12 +77,12 @@ LiveFiles(st) == Flatten(BaseManifests(st))
 
 FreshManifestIds(st) == [i \in 1..16 |-> Len(st.manifests) + i]
 
-(* ---- metadata_manager.py:136-243 commit(base, new) in a sequential history ---- *)
+(* ---- metadata_manager.py:136-251 commit(base, new) in a sequential history ---- *)
 \* Validate(base, current) is "ok" by construction (base = current).
 Publish(st, draft) ==
-  LET new == AppendMetadataLog(StampCommit(draft, st.clock), st.meta, st.metaName)   \* :183, :208-211
+  LET new == AppendMetadataLog(StampCommitMono(draft, st.meta, st.clock), st.meta, st.metaName)   \* :188-191, :216-219
   IN [st EXCEPT !.prev = st.meta, !.meta = new,
-                !.metaName = st.nMeta + 1, !.nMeta = st.nMeta + 1,                   \* :217-219, :232
+                !.metaName = st.nMeta + 1, !.nMeta = st.nMeta + 1,                   \* :225-227, :240
                 !.ghost = GhostSupersede(st.ghost, st.metaName)]
 
 (* ---- model flaws (anti-vacuity only) ---- *)
